@@ -20,9 +20,10 @@ item tuples: ('A', ver, value) ('SA', ver, value) ('N', ver, value, plen) ('SN',
              ('R', ver, lo, hi)
 """
 import ipaddress as _stdip
+import itertools as _itertools
 import random as _random
 
-from common import Case, W, rand_value, rand_block, boundary_values, plist, errname
+from common import Case, W, rand_value, rand_block, harvest_literals, plist, errname
 import netaddr
 from netaddr import IPAddress, IPNetwork, IPRange, cidr_merge, iprange_to_cidrs, iter_unique_ips, glob_to_cidrs
 
@@ -40,6 +41,7 @@ RULE = ('intervals [lo,hi]: every trailing-zero class 0..width of lo and of hi+1
         'reference. non-trivial = distinct case whose implementation output is not an error')
 
 _M = {4: (1 << 32) - 1, 6: (1 << 128) - 1}
+_CAP = 4096          # iter_unique_ips is only generated for unions of at most this many addresses
 
 
 # ---------------------------------------------------------------- integer reference (no netaddr)
@@ -273,7 +275,7 @@ def _intervals(rng, ver, mult):
     ivs = [(0, m), (0, 0), (m, m), (0, 1), (m - 1, m), (1, m), (0, m - 1), (1, m - 1), (0, h), (h + 1, m), (h, h + 1),
            (1, 1), (1, 2), (m - 2, m - 1)]
     for a in range(w + 1):
-        for _ in range(2 * mult):
+        for _ in range(3 * mult):
             lo = _aligned(rng, w, a)                   # alignment class of lo
             ivs.append((lo, min(m, lo + _length(rng, w) - 1)))
             e = (1 << w) if a == w else _aligned(rng, w, a)   # alignment class of hi+1
@@ -329,7 +331,7 @@ def _gen_netpairs(rng, ver, mult):
     w = W[ver]
     m = _M[ver]
     cases = []
-    for _ in range(230 * mult):
+    for _ in range(450 * mult):
         r = rng.random()
         if r < 0.12:
             # the fixed-finding shape: end block contains the start block, both carry host bits
@@ -447,13 +449,38 @@ def _split(rng, first, s, depth):
     return _split(rng, first, s - 1, depth - 1) + _split(rng, first + (1 << (s - 1)), s - 1, depth - 1)
 
 
+def _notable(rng, ver):
+    """a boundary value in [1, max]: powers of two, 2^32 inside IPv6, large literals of the source, structured values"""
+    w = W[ver]
+    r = rng.random()
+    if r < 0.3:
+        b = 1 << rng.randrange(0, w)
+    elif r < 0.5:
+        b = (1 << 32) if ver == 6 else (1 << 31)
+    elif r < 0.7:
+        lits = [v for v in harvest_literals() if 256 <= v <= _M[ver]]
+        b = rng.choice(lits) if lits else 1 << (w - 1)
+    else:
+        b = rand_value(rng, w)
+    return min(max(b, 1), _M[ver])
+
+
 def _scn_sib(rng, ver, hot):
     """a random binary partition of one block: siblings combine recursively up several levels"""
     w = W[ver]
     m = _M[ver]
     base, k = hot
-    s = rng.randrange(1, min(k, 7) + 1)
-    first = _blk_first(ver, base + rng.randrange(0, 1 << k), w - s)
+    r = rng.random()
+    if r < 0.2:
+        b = _notable(rng, ver)                                 # two halves meeting at a notable boundary
+        t = (b & -b).bit_length() - 1
+        s, first = t + 1, b - (1 << t)
+    elif r < 0.35:
+        s = rng.randrange(1, w + 1)                            # big blocks, anywhere
+        first = _blk_first(ver, rand_value(rng, w), w - s)
+    else:
+        s = rng.randrange(1, min(k, 7) + 1)
+        first = _blk_first(ver, base + rng.randrange(0, 1 << k), w - s)
     parts = _split(rng, first, s, 4)
     shapes = [('blk', ver, f, w - t) for f, t in parts]
     r = rng.random()
@@ -491,8 +518,14 @@ def _end_block(rng, ver, l):
 
 def _scn_adj(rng, ver, hot):
     """neighbours at distance 0, 1 (last+1: must merge) and 2 (last+2: must not)"""
+    w = W[ver]
     m = _M[ver]
-    shapes = [_hot_shape(rng, ver, hot)]
+    if rng.random() < 0.3:
+        # anchored on a notable boundary b: something ending at b-1, neighbours follow below
+        b = _notable(rng, ver)
+        shapes = [_end_block(rng, ver, b - 1) if rng.random() < 0.6 else ('rng', ver, max(0, b - rng.choice((1, 2, 3, 9))), b - 1)]
+    else:
+        shapes = [_hot_shape(rng, ver, hot)]
     for _ in range(rng.randrange(1, 4)):
         f, l = _shape_iv(rng.choice(shapes))
         d = rng.choice((0, 1, 1, 1, 2, 2))
@@ -567,7 +600,7 @@ def _scn_xfam(rng, hot4):
 
 def _gen_merges(rng, mult):
     cases = []
-    for _ in range(520 * mult):
+    for _ in range(1400 * mult):
         hots = {4: [_hot(rng, 4)], 6: [_hot(rng, 6)]}
         for ver in (4, 6):
             if rng.random() < 0.3:
@@ -636,7 +669,7 @@ def _hyphen(rng):
 
 def _gen_globs(rng, mult):
     texts = ['*.*.*.*']
-    for _ in range(140 * mult):
+    for _ in range(250 * mult):
         nplain = rng.choice((0, 1, 1, 2, 2, 2, 3, 3, 3, 3, 4, 4))
         parts = [str(_octet(rng)) for _ in range(nplain)]
         if nplain < 4 and rng.random() < 0.55:
@@ -648,7 +681,7 @@ def _gen_globs(rng, mult):
 
 def _gen_uniq(rng, mult):
     cases = []
-    for _ in range(90 * mult):
+    for _ in range(200 * mult):
         hots = {4: _hot(rng, 4, 6), 6: _hot(rng, 6, 6)}
         fam = rng.choice(((4,), (6,), (4, 6), (4, 4, 6)))
         shapes = []
@@ -660,7 +693,7 @@ def _gen_uniq(rng, mult):
             shapes += _scn_sib(rng, v, hots[v])
         items = [_dress(rng, s) for s in shapes]
         total = sum(l - f + 1 for v, f, l in ref_union([_item_iv(it) for it in items]))
-        if total <= 4096:
+        if total <= _CAP:
             cases.append(_uniq_case(items))
     return cases
 
@@ -692,7 +725,8 @@ def impl(c):
         if a[0] == 'glob':
             return _show_blocks(glob_to_cidrs(a[1]))
         if a[0] == 'uniq':
-            return plist('%d:%d' % (ip.version, ip.value) for ip in iter_unique_ips(*[_obj(it) for it in a[1]]))
+            ips = list(_itertools.islice(iter_unique_ips(*[_obj(it) for it in a[1]]), _CAP + 1))   # bounded
+            return plist(['%d:%d' % (ip.version, ip.value) for ip in ips[:_CAP]] + ['...'] * (len(ips) > _CAP))
     except Exception as e:
         return '!' + errname(e)
     raise ValueError(a)
